@@ -371,10 +371,13 @@ func (r *run) observeFollowers(final bool) {
 	}
 }
 
-// checkOnceInOrder is C05's "every leader command takes effect exactly once and in leader order", read off the
-// ground truth: the committed log of the follower table's shard. Every replicated proposal carries the leader
-// index of its last command; a committed proposal whose leader index is not above the one before it makes the
-// follower apply leader commands a second time (or out of order), whether or not the content happens to survive.
+// checkOnceInOrder reads the committed log of a follower table's shard (ground truth) for replicated
+// proposals that do not take the table beyond the leader index an earlier entry already reached: the same
+// leader commands proposed again (the first proposal's outcome was indeterminate, or two nodes believed they
+// held the lease). Since regatta's state machine skips such a sequence (fix "exactly once"), its presence
+// in the log is legal; what C05 demands is that it has no effect, which the content oracle decides right
+// after (most generated sequences contain state-dependent transactions, so a second application shows).
+// Counted as a probe so that the evidence says how often the situation was reached.
 func (r *run) checkOnceInOrder(table string, shardID uint64) bool {
 	log := r.w.u.Log("F", shardID)
 	from := r.onceChecked[shardID]
@@ -389,15 +392,17 @@ func (r *run) checkOnceInOrder(table string, shardID uint64) bool {
 			continue
 		}
 		li := *c.LeaderIndex
-		if li == last && c.Type == regattapb.Command_PUT_BATCH {
-			// the closing batch of a snapshot restore, proposed again after an indeterminate (timed out but
-			// applied) first attempt: the same pairs at the same leader index, not a leader command run twice
-			r.out.Probe("restore-batch-retried")
+		if li <= last {
+			if c.Type == regattapb.Command_SEQUENCE {
+				r.out.Probe("sequence-proposed-again-in-log")
+			} else {
+				r.out.Probe("restore-batch-proposed-again-in-log")
+			}
 			continue
 		}
-		if li <= last {
-			r.fail("C05", "replicated-twice", "replicated-twice:"+c.Type.String(), "follower table %s (shard %d): committed entry %d replicates leader commands up to leader index %d (%s, %d commands) although an earlier entry already took the table to leader index %d: leader commands are applied a second time", table, shardID, e.Index, li, c.Type, len(c.Sequence), last)
-			return false
+		if c.Type == regattapb.Command_SEQUENCE && len(c.Sequence) > 0 && c.Sequence[0].LeaderIndex != nil && last > 0 && *c.Sequence[0].LeaderIndex <= last {
+			// a longer sequence whose head repeats what an earlier proposal already replicated
+			r.out.Probe("sequence-head-proposed-again-in-log")
 		}
 		last = li
 	}
